@@ -39,6 +39,36 @@ theorem candidate_iff (c : Int) :
   unfold candidate
   simp only [Bool.or_eq_true, decide_eq_true_eq, doc_solved, doc_unboundedFeas, doc_limitFeas, or_assoc]
 
+/-- a bit test written with `&&&` and a power-of-two mask is `testBit` -/
+theorem land_pow_ne_zero (w i : Nat) : (w &&& 2^i ≠ 0) ↔ w.testBit i = true := by
+  constructor
+  · intro h
+    apply Classical.byContradiction; intro hb
+    apply h
+    apply Nat.eq_of_testBit_eq
+    intro j
+    rw [Nat.testBit_and, Nat.testBit_two_pow, Nat.zero_testBit]
+    by_cases hij : i = j
+    · subst hij; simp at hb; simp [hb]
+    · simp [hij]
+  · intro h h0
+    have : (w &&& 2^i).testBit i = true := by rw [Nat.testBit_and, Nat.testBit_two_pow]; simp [h]
+    rw [h0] at this; simp at this
+
+theorem land_mask_decide (w i : Nat) : decide (w &&& 2^i ≠ 0) = w.testBit i := by
+  cases h : w.testBit i
+  · have hn : ¬ (w &&& 2^i ≠ 0) := fun hh => by have := (land_pow_ne_zero w i).mp hh; rw [h] at this; cases this
+    exact decide_eq_false hn
+  · exact decide_eq_true ((land_pow_ne_zero w i).mpr h)
+
+theorem land_mask_decide_eq (w i : Nat) : decide (w &&& 2^i = 0) = !w.testBit i := by
+  cases h : w.testBit i
+  · have hn : ¬ (w &&& 2^i ≠ 0) := fun hh => by have := (land_pow_ne_zero w i).mp hh; rw [h] at this; cases this
+    have : w &&& 2^i = 0 := Classical.byContradiction hn
+    simp [this]
+  · have := (land_pow_ne_zero w i).mpr h
+    simp [this]
+
 /-- rewrite every `documented c = k` into arithmetic -/
 macro "c10_doc" : tactic => `(tactic| simp only [doc_solved, doc_uncertain, doc_infeasible, doc_unboundedFeas,
   doc_unboundedNoFeas, doc_limitFeas, doc_limitInfUnb, doc_limitNoFeas, doc_failure, doc_unclassified,
